@@ -17,6 +17,7 @@ Example::
  >>> x == z
  True
 """
+import sys
 from rpyc.lib.compat import Struct, BytesIO, BYTES_LITERAL
 
 
@@ -110,7 +111,10 @@ def _dump_int(obj, stream):
     if obj in IMM_INTS:
         stream.append(IMM_INTS[obj])
     else:
-        obj = BYTES_LITERAL(str(obj))
+        try:
+            obj = BYTES_LITERAL(str(obj))
+        except ValueError:  # beyond the interpreter's limit for int -> str conversion
+            raise TypeError("cannot dump an integer of %d bits" % (obj.bit_length(),))
         lenobj = len(obj)
         if lenobj < 256:
             stream.append(TAG_INT_L1 + I1.pack(lenobj) + obj)
@@ -360,6 +364,18 @@ def load(data):
 simple_types = frozenset([type(None), int, bool, float, bytes, str, complex, type(NotImplemented), type(Ellipsis)])
 
 
+def _int_renderable(obj):
+    """whether ``str(obj)`` works: interpreters limit the number of digits of int <-> str conversions"""
+    limit = getattr(sys, "get_int_max_str_digits", lambda: 0)()
+    if not limit or obj.bit_length() < 3 * limit:  # certainly fewer than ``limit`` digits
+        return True
+    try:
+        str(obj)
+    except ValueError:
+        return False
+    return True
+
+
 def dumpable(obj):
     """Indicates whether the given object is *dumpable* by brine
 
@@ -367,7 +383,7 @@ def dumpable(obj):
               ``False`` otherwise
     """
     if type(obj) in simple_types:
-        return True
+        return type(obj) is not int or _int_renderable(obj)
     if type(obj) in (tuple, frozenset):
         return all(dumpable(item) for item in obj)
     if type(obj) is slice:
